@@ -25,6 +25,15 @@ SKELETONS = {
     'update_set_where': ("UPDATE int1.t SET a = {0}, b = {1} WHERE c = {2} AND d = {3}", 4),
     'delete_where': ("DELETE FROM int1.t WHERE a = {0} AND b IN ({1}, {2})", 3),
     'model_join': ("SELECT t.a, m.p FROM int1.t AS t JOIN mindsdb.pred AS m WHERE t.x = {0} AND t.y > {1}", 2),
+    'insert_rows': ("INSERT INTO int1.t (a, b) VALUES ({0}, {1}), ({2}, {3} + 10), ({4}, 'fixed'), ({5}, 7)", 6),
+    'function_args': ("SELECT coalesce({0}, a, {1}) AS k, upper({2}) AS u FROM int1.t WHERE abs(x - {3}) > {4}", 5),
+    'target_alias_expr': ("SELECT {0} AS k, {1} + {2} AS s, ({3} + 1) * 2 AS n FROM int1.t ORDER BY a", 4),
+    'nested_subqueries': ("SELECT a FROM int1.t WHERE x IN (SELECT b FROM int1.t2 WHERE y = {0} AND z IN (SELECT c FROM int1.t3 WHERE w = {1})) AND v = {2}", 3),
+    'not_like_null': ("SELECT a FROM int1.t WHERE NOT (a = {0}) AND b LIKE {1} AND c IS NOT NULL AND d != {2} OR e = {3}", 4),
+    'join3_on_where': ("SELECT * FROM int1.t1 JOIN int2.t2 ON t1.a = t2.a AND t2.b = {0} LEFT JOIN int1.t3 ON t3.a = t1.a AND t3.c = {1} WHERE t1.c = {2} AND t3.d = {3}", 4),
+    'union_three': ("SELECT a FROM int1.t WHERE x = {0} UNION ALL SELECT a FROM int2.t WHERE y = {1} UNION ALL SELECT a FROM int1.t2 WHERE z = {2}", 3),
+    'update_from': ("UPDATE int1.t SET a = {0} FROM (SELECT b FROM int2.t2 WHERE y = {1}) AS s WHERE t.b = s.b AND t.c = {2}", 3),
+    'model_join_sub': ("SELECT m.p FROM (SELECT a FROM int1.t WHERE x = {0}) AS t JOIN mindsdb.pred AS m WHERE m.q = {1}", 2),
     'where_subquery': ("SELECT a FROM int1.t WHERE x = {0} AND b IN (SELECT b FROM int2.t2 WHERE y = {1}) AND z = {2}", 3),
 }
 LIT = [11, 12, 13, 14, 15, 16]
@@ -94,6 +103,8 @@ def leaf(name, mask, delta):
         info = planner.get_statement_info()
     except (PlanningException, NotImplementedError) as e:
         return []     # statement kind not preparable with this catalog: outside the claim (counted by caller)
+    except Exception as e:  # noqa
+        return ['prepare raises an internal error %s: %s' % (type(e).__name__, str(e)[:100])]
     if len(info['parameters']) != n:
         problems.append('prepare reports %d parameters for %d placeholders' % (len(info['parameters']), n))
         return problems
